@@ -458,3 +458,8 @@ Example ex_spell_ambiguous : sp_unambiguous (SpCell KBare (KAbs 5)) = false
   /\ sp_unambiguous (SpRows (KAbs 1) (KAbs 3)) = false
   /\ create (sp_text (SpRows (KAbs 1) (KAbs 3))) [] (Some (5, 3)) = Ok (VA (ARange [] 18 1 18 3)).
 Proof. vm_compute. repeat split; reflexivity. Qed.
+(* the hypotheses of the two theorems are met by these *)
+Example ex_sp_ok : sp_ok (SpRows KBare (KRel 3)) /\ sp_ok (SpRange (KAbs 5) (KRel (-1)) KBare (KAbs 16384))
+  /\ sp_unambiguous (SpRange (KAbs 5) (KRel (-1)) KBare (KAbs 16384)) = true
+  /\ rel_or_bare (KRel (-1)) /\ rel_or_bare KBare /\ sheet_ok [83; 104; 101; 101; 116; 32; 49] = true.
+Proof. unfold sp_ok, item_ok. cbn. repeat split; try exact I; try reflexivity; lia. Qed.
